@@ -39,6 +39,7 @@ static descent_trial* g_trial[MAXT];
 static int g_owner = -1; static std::set<int> g_cvwait;
 static std::vector<int> g_schedule; static size_t g_spos = 0; static std::string g_policy; static uint64_t g_rng = 1;
 static bool g_drift = false, g_deadlock = false; static std::string g_driftwhat;
+static std::vector<int> g_last_states; static std::string g_race;   // worker states at the previous event; first unprotected change seen
 static std::vector<Ev> g_events; static std::mutex g_evlock;
 static sem_t g_created;
 static void (*g_on_deadlock)() = nullptr;
@@ -105,9 +106,16 @@ static int choose_and_apply() {
 // the calling thread announces its next operation and sleeps until the scheduler grants it
 static void yield_point(Op op, int arg = 0) {
 	int self = t_self;
+	// the run segment of this thread that ends here: did it change a worker state field without holding the mutex?
+	if (g_nthreads - 1 == g_nw_expected) {
+		std::vector<int> now = snapshot_states();
+		if (now.size() == g_last_states.size() && now != g_last_states && g_owner != self && g_race.empty())
+			g_race = "thread " + std::to_string(self) + " changed a worker state field without holding the mutex (before its " + opname[op] + ")";
+	}
 	g_pending[self] = op; g_joinarg[self] = arg; g_parked[self] = true;
 	int next = choose_and_apply();
 	g_parked[next] = false;
+	if (g_nthreads - 1 == g_nw_expected) g_last_states = snapshot_states();
 	if (next != self) { sem_post(&g_sem[next]); sem_wait(&g_sem[self]); }
 }
 // hand the baton on without coming back (thread exit)
@@ -239,7 +247,7 @@ static cholmod_dense* vec(const std::vector<double>& v, cholmod_common* c) {
 // ------------------------------------------------------------------ runs
 static FILE* g_out = nullptr; static long g_run = 0; static JV g_plan; static int g_nw, g_na, g_fr;
 static void write_record(const char* status, const std::string& result) {
-	JW w; w.i("run", g_run).i("nw", g_nw).i("na", g_na).i("firstred", g_fr).s("policy", g_policy).s("status", status).b("drift", g_drift).s("driftwhat", g_driftwhat);
+	JW w; w.i("run", g_run).i("nw", g_nw).i("na", g_na).i("firstred", g_fr).s("policy", g_policy).s("status", status).b("drift", g_drift).s("driftwhat", g_driftwhat).s("race", g_race);
 	std::ostringstream os; os << "[";
 	for (size_t i = 0; i < g_events.size(); i++) {
 		if (i) os << ","; os << "{\"th\":" << g_events[i].th << ",\"op\":\"" << opname[g_events[i].op] << "\"";
@@ -274,7 +282,7 @@ int main(int argc, char** argv) {
 		g_nw = pl["nw"].integer(); g_nw_expected = g_nw; g_na = pl["na"].integer(); g_fr = pl["firstred"].integer(); g_policy = pl["policy"].str();
 		g_schedule.clear(); if (pl.has("schedule")) for (auto v : pl["schedule"].ints()) g_schedule.push_back((int)v);
 		g_spos = 0; g_rng = pl.has("seed") ? (uint64_t)pl["seed"].integer() * 2654435761u + 1 : 1;
-		g_events.clear(); g_drift = false; g_deadlock = false; g_driftwhat.clear(); g_owner = -1; g_cvwait.clear();
+		g_events.clear(); g_drift = false; g_deadlock = false; g_driftwhat.clear(); g_owner = -1; g_cvwait.clear(); g_last_states.clear(); g_race.clear();
 		for (int t = 0; t < MAXT; t++) { g_finished[t] = false; g_parked[t] = false; g_pending[t] = O_NONE; g_trial[t] = nullptr; g_computing[t] = false; }
 		g_nthreads = 1; t_self = 0; g_mode = g_policy == "free" ? 0 : 1;
 		auto it = bank.find({g_na, g_fr});
